@@ -47,6 +47,15 @@ Definition gz_sfx : bytes := [103; 122].                              (* "gz" *)
 (* the sort key of read_dir_related_files: the name without ".gz", suffix and restart counter, then the restart
    counter - numerically, a name without counter first -, then the name itself *)
 Definition restart_tag : bytes := [46; 114; 101; 115; 116; 97; 114; 116; 45].   (* ".restart-" *)
+(* str::rsplit_once: the last occurrence of the pattern *)
+Fixpoint find_last_sub (pat s : bytes) : option nat :=
+  match s with
+  | [] => if is_prefix pat [] then Some O else None
+  | _ :: s' => match find_last_sub pat s' with
+               | Some i => Some (S i)
+               | None => if is_prefix pat s then Some O else None
+               end
+  end.
 Fixpoint drop_zeros (s : bytes) : bytes := match s with 48 :: r => drop_zeros r | _ => s end.
 Definition sort_key (sfx : option bytes) (n : bytes) : bytes * option (nat * bytes) :=
   let s1 := match strip_suffix (dot :: gz_sfx) n with Some s => s | None => n end in
@@ -54,7 +63,7 @@ Definition sort_key (sfx : option bytes) (n : bytes) : bytes * option (nat * byt
               | Some x => match strip_suffix (dot :: x) s1 with Some s => s | None => s1 end
               | None => s1
               end in
-  match find_sub restart_tag stem with
+  match find_last_sub restart_tag stem with
   | Some ix => let digits := skipn (ix + 9) stem in
                if negb (beq digits []) && forallb is_digit digits
                then let d := drop_zeros digits in (firstn ix stem, Some (length d, d))
@@ -211,10 +220,12 @@ Fixpoint take_digits (s : bytes) : bytes :=
   | c :: r => if is_digit c then c :: take_digits r else []
   | [] => []
   end.
-Definition restart_number (n : bytes) : option N :=
-  match find_sub restart_tag n with
+(* (the tag is looked for together with the infix in front of it: the fixed name part or the suffix may contain
+   ".restart-", too) *)
+Definition restart_number (infix : bytes) (n : bytes) : option N :=
+  match find_sub (infix ++ restart_tag) n with
   | None => None
-  | Some ix => parse_uint usize_max (take_digits (skipn (ix + 9) n))
+  | Some ix => parse_uint usize_max (take_digits (skipn (ix + length infix + 9) n))
   end.
 
 (* outer None: panic; inner None: the error "restart numbers are exhausted" *)
@@ -222,12 +233,12 @@ Definition collision_free_infix (off : Z) (sp : file_spec) (fixed : bytes) (f : 
   let rel := related_files f (fsfx sp) fixed in
   match filter_files off (fsfx sp) fixed rel (IFEq infix) (fsfx sp), filter_files off (fsfx sp) fixed rel (IFEq infix) (Some gz_sfx) with
   | Some unc, Some cmp =>
-    let sibs := filter (fun n => contains restart_tag n) (unc ++ cmp) in
+    let sibs := filter (fun n => contains (infix ++ restart_tag) n) (unc ++ cmp) in
     let new_name := as_name sp fixed (Some infix) in
     let new_gz := new_name ++ dot :: gz_sfx in
     let exists_ n := match lookup f n with Some _ => true | None => false end in
     if exists_ new_name || exists_ new_gz || match sibs with [] => false | _ => true end then
-      match max_opt (filter_map_opt restart_number sibs) with
+      match max_opt (filter_map_opt (restart_number infix) sibs) with
       | None => Some (Some (infix ++ restart_tag ++ pad_left 4 48 (dec 0)))
       | Some k => if k <? usize_max then Some (Some (infix ++ restart_tag ++ pad_left 4 48 (dec (k + 1)))) else Some None
       end
